@@ -86,6 +86,18 @@ def run(ctx, out):
     some = index[sorted(index)[0]]
     out.sample({"scenario": some[0]["scn"], "decisions": [(e["ev"], e["arg"]) for e in some[1]["events"]][:40]})
     out.note("leg C2S: %d races, %d traces accepted by TLC, %d schedule steps followed, %d not enabled" % (len(jobs), out.traces_validated, stats["followed"], stats["skipped"]))
+    # trusted base: the simulated actor system against the REAL Thespian actor system (informational, see specs/ActorSem)
+    try:
+        from ..core import Outcome
+        from ..extras import actorsem
+
+        sub = Outcome("X-actorsem")
+        actorsem.run(ctx, sub)
+        out.extra["actor_semantics_crosscheck"] = "ok: real Thespian and SimActorSystem logs satisfy ActorSem.tla" if not sub.violations else "FAILED: %s" % [v.clause for v in sub.violations]
+        if sub.violations:
+            out.drift.append("actor semantics cross-check failed: %s" % [(v.signature.get("system"), v.clause) for v in sub.violations])
+    except Exception as ex:  # pylint: disable=broad-except
+        out.extra["actor_semantics_crosscheck"] = "not run: %s" % ex
 
 
 def replay(ctx, case):
